@@ -20,12 +20,23 @@ class C13(HistProp):
     ]
     rule = ('the API histories of C04 (exhaustive short + random long) and decoder / serializer operations on the C01/C03 inputs, each run under the tagging allocator and under the '
             'arena allocator (outputs must be identical and nothing may abort); every streaming-decode, encode, UTF-8, arithmetic operation runs with allocator requests forbidden; '
-            'fixed-buffer serialization and size computation are checked for zero requests; non-trivial = any operation; distinct by (operation, result)')
+            'fixed-buffer serialization and size computation are checked for zero requests; copy / load / build-tag scenarios under every single-fault and fail-stop schedule followed by releasing everything (live blocks must be 0); non-trivial = any operation; distinct by (operation, result)')
 
     def histories(self, tier, rng):
         hs = hist.exhaustive(3)
         for i in range(400 if tier == 'thorough' else 60): hs.append(hist.history(rng, 120))
+        # copy / load / build-tag under every single-fault and fail-stop schedule, then everything is released: every block obtained must have gone back
+        # through the installed free (a block that is never handed back, or handed back behind the allocator's back, shows as live != 0 or an abort)
+        from .C06 import C06
+        for l, e in C06().histories(tier, core.Rng('C13-faulted')):
+            if any(x.startswith(('H copy', 'H load', 'H btag')) for x in l): hs.append((l, e))
         return hs
+
+    def judge(self, lines, outs, expect):
+        last = outs[-1] if outs else ''
+        if lines and lines[-1].startswith('H drop') and 'live=0' not in last:
+            return (len(lines) - 1, 'everything was released but blocks obtained from the installed allocator were never handed back to it: ' + last)
+        return None
 
     def value_lines(self, tier, rng):
         bufs, wf, nb, rnd = dec.corpus('quick', rng, rounds=1)
